@@ -1,6 +1,447 @@
-import Summer.Model.Run
--- placeholder until the proof worker delivers (replaced by the real file)
-namespace Summer.Props.C04
-theorem placeholder : True := trivial
-end Summer.Props.C04
-#print axioms Summer.Props.C04.placeholder
+import Summer.Proofs.Structure
+import Mathlib.Algebra.Field.Defs
+import Mathlib.Data.Int.Cast.Basic
+/-
+C04 — Stratified flows are exactly the prescribed copies with the prescribed weights.
+
+Specifications (all in `Summer/Spec/Structure.lean`):
+* `Spec.winning s f`   : adjustment dictionary of the LAST declaration applicable to the parent flow `f`;
+* `Spec.copies f s`    : `[f]` if no end is stratified, otherwise one `Spec.copyOf f s st` per stratum of
+                         `Spec.copyStrata f s` (all strata; only `"0"` for a birth flow under an age
+                         stratification), in declaration order;
+* `Spec.extraAdj f s st`: what is appended to the parent's adjustment list (the documented table);
+* `Spec.ageingFlows`   : the ageing flows of an age stratification;
+* `Spec.applyAdj(s)`   : effect of adjustments on the realised weight.
+
+Hypotheses `hsrc`/`hdst` ("an entry flow has no source, an exit flow has no destination") hold for
+every flow of every reachable model (`C12.reachable_shape`).
+-/
+namespace Summer.C04
+open Summer Summer.Build Summer.Generated Summer.Spec Summer.Proofs.Structure
+
+section
+variable {α : Type}
+
+/-! ### `C04.last_match_wins` -/
+
+/-- when `get_flow_adjustment` does not raise it returns the dictionary of the LAST declaration for
+`f.name` whose source/dest filters are contained in the PARENT flow's strata (a missing end never
+blocks), `none` if there is none; and no declaration for `f.name` filters on a missing end -/
+theorem last_match_wins {s : Strat α} {f : Flow α} {r : Option (List (String × Option (Adj α)))}
+    (h : getFlowAdjustment s f = .ok r) :
+    r = ((s.flowAdj.filter (fun d => decide (declApplies d f))).getLast?).map (·.adjs)
+      ∧ ∀ d ∈ s.flowAdj, ¬ declRaises d f :=
+  getFlowAdjustment_ok_inv h
+
+/-- it does not raise exactly when no declaration for `f.name` filters on an end `f` does not have -/
+theorem last_match_wins_ok (s : Strat α) (f : Flow α) (h : ∀ d ∈ s.flowAdj, ¬ declRaises d f) :
+    getFlowAdjustment s f = .ok (winning s f) :=
+  getFlowAdjustment_ok s f h
+
+theorem last_match_wins_raises (s : Strat α) (f : Flow α) (h : ∃ d ∈ s.flowAdj, declRaises d f) :
+    ∃ e, getFlowAdjustment s f = .error e :=
+  getFlowAdjustment_error s f h
+
+/-- index-maximality formulation: the winner is applicable and every LATER declaration is not -/
+theorem winning_some_iff (s : Strat α) (f : Flow α) (a : List (String × Option (Adj α))) :
+    winning s f = some a ↔
+      ∃ l1 d l2, s.flowAdj = l1 ++ d :: l2 ∧ declApplies d f ∧ d.adjs = a ∧ ∀ d' ∈ l2, ¬ declApplies d' f :=
+  winning_eq_some_iff s f a
+
+theorem winning_none_iff (s : Strat α) (f : Flow α) :
+    winning s f = none ↔ ∀ d ∈ s.flowAdj, ¬ declApplies d f :=
+  winning_eq_none_iff s f
+
+/-- non-vacuity: three declarations for the same flow; the second and third apply to the parent
+`S/age 0 → I/age 0`, the LAST one wins; the first filters on another stratum and does not apply -/
+example :
+    let d1 : FlowAdjDecl Int := ⟨"infection", [("u", some (.mul (.const 1))), ("r", none)], [("age", "5")], []⟩
+    let d2 : FlowAdjDecl Int := ⟨"infection", [("u", some (.mul (.const 2))), ("r", none)], [], [("age", "0")]⟩
+    let d3 : FlowAdjDecl Int := ⟨"infection", [("u", some (.ovr (.const 3))), ("r", none)], [("age", "0")], []⟩
+    let s := Spec.Ex.strat .plain "loc" ["u", "r"] ["S", "I"] [d1, d2, d3]
+    let f := Spec.Ex.flow .infFreq "infection" (some Spec.Ex.s0) (some Spec.Ex.i0)
+    (∀ d ∈ s.flowAdj, ¬ declRaises d f) ∧ ¬ declApplies d1 f ∧ declApplies d2 f ∧ declApplies d3 f
+      ∧ (winning s f).isSome = true := by
+  refine ⟨by decide, by decide, by decide, by decide, ?_⟩
+  simp only [winning]
+  decide
+
+end
+
+section
+variable {α : Type} [One α] [Div α] [NatCast α]
+
+/-! ### `C04.copies` -/
+
+/-- `Flow.stratify`, when it does not raise, returns exactly the specified copies -/
+theorem copies {f : Flow α} {s : Strat α} {fs : List (Flow α)}
+    (hsrc : isEntry f.kind = true → f.src = none) (hdst : isExit f.kind = true → f.dst = none)
+    (h : stratifyFlow f s = .ok fs) : fs = Spec.copies f s :=
+  stratifyFlow_ok hsrc hdst h
+
+/-- and it does not raise under `Spec.StratifyOk` -/
+theorem copies_ok {f : Flow α} {s : Strat α}
+    (hsrc : isEntry f.kind = true → f.src = none) (hdst : isExit f.kind = true → f.dst = none)
+    (hc : StratifyOk f s) : stratifyFlow f s = .ok (Spec.copies f s) :=
+  stratifyFlow_eq_ok hsrc hdst hc
+
+/-- neither end's name is stratified: the flow is kept as it is -/
+theorem copies_untouched {f : Flow α} {s : Strat α} (h : ¬ (endIn s f.src ∨ endIn s f.dst)) :
+    Spec.copies f s = [f] :=
+  Proofs.Structure.copies_untouched h
+
+/-- otherwise one copy per stratum, in declaration order, with the stratified end(s) replaced by
+`c.stratify s.name stratum`, the other end unchanged, and name, kind and parameter unchanged -/
+theorem copies_touched {f : Flow α} {s : Strat α} (h : endIn s f.src ∨ endIn s f.dst) (hb : ¬ birthIntoAge f s) :
+    Spec.copies f s = s.strata.map (fun st =>
+      { f with src := stratEnd s st f.src, dst := stratEnd s st f.dst, adjs := f.adjs ++ extraAdj f s st }) := by
+  rw [Proofs.Structure.copies_touched h, copyStrata_other hb]; rfl
+
+/-- a birth flow under an age stratification only enters stratum `"0"` -/
+theorem copies_birth_age {f : Flow α} {s : Strat α} (h : endIn s f.src ∨ endIn s f.dst) (hb : birthIntoAge f s)
+    (hs : s.strata.Nodup) (h0 : "0" ∈ s.strata) :
+    Spec.copies f s = [{ f with src := stratEnd s "0" f.src, dst := stratEnd s "0" f.dst }] := by
+  rw [Proofs.Structure.copies_touched h, copyStrata_birth_age hs h0 hb]
+  simp [copyOf, extraAdj_birth_age hb]
+
+omit [One α] [Div α] [NatCast α] in
+/-- what `stratEnd` is: the stratified end is replaced, the other is unchanged -/
+theorem stratEnd_spec (s : Strat α) (st : String) (e : Option Comp) :
+    (endIn s e → stratEnd s st e = e.map (fun c => c.stratify s.name st)) ∧ (¬ endIn s e → stratEnd s st e = e) :=
+  ⟨fun h => stratEnd_of_in h st, fun h => stratEnd_of_not_in h st⟩
+
+/-- number of copies -/
+theorem copies_count (f : Flow α) (s : Strat α) :
+    (Spec.copies f s).length
+      = if endIn s f.src ∨ endIn s f.dst then (if birthIntoAge f s then (s.strata.filter (· == "0")).length else s.strata.length)
+        else 1 := by
+  rw [copies_length]
+  unfold copyStrata
+  by_cases h : endIn s f.src ∨ endIn s f.dst
+  · rw [if_pos h, if_pos h]
+    by_cases hb : birthIntoAge f s
+    · rw [if_pos hb, if_pos hb]
+    · rw [if_neg hb, if_neg hb]
+  · rw [if_neg h, if_neg h]
+
+/-- names, kinds and base parameters are unchanged; the parent's adjustments are a prefix -/
+theorem copies_fields {f g : Flow α} {s : Strat α} (hg : g ∈ Spec.copies f s) :
+    g.name = f.name ∧ g.kind = f.kind ∧ g.param = f.param ∧ ∃ extra, g.adjs = f.adjs ++ extra :=
+  Proofs.Structure.copies_fields hg
+
+/-- the copies are pairwise distinct -/
+theorem copies_nodup {f : Flow α} {s : Strat α} (hs : s.strata.Nodup) : (Spec.copies f s).Nodup :=
+  Proofs.Structure.copies_nodup hs
+
+open Spec.Ex in
+/-- non-vacuity (executed on `Int`): an infection flow under a plain stratification of both ends, with
+a declaration: two copies, both ends replaced, `u` multiplied, `r` unchanged -/
+example :
+    let d : FlowAdjDecl Int := ⟨"infection", [("u", some (.mul (.const 7))), ("r", none)], [], []⟩
+    let s := strat .plain "loc" ["u", "r"] ["S", "I"] [d]
+    let f := flow .infFreq "infection" (some s0) (some i0)
+    stratifyFlow f s = .ok
+      [{ f with src := some (s0.stratify "loc" "u"), dst := some (i0.stratify "loc" "u"), adjs := [.mul (.const 7)] },
+       { f with src := some (s0.stratify "loc" "r"), dst := some (i0.stratify "loc" "r"), adjs := [] }] := rfl
+
+open Spec.Ex in
+/-- non-vacuity of `copies_birth_age` (executed): a birth flow under an age stratification yields only
+the stratum-`"0"` copy, without any adjustment -/
+example :
+    let s := strat .age "age" ["0", "5"] ["S", "I"] []
+    let f := flow .crudeBirth "birth" none (some ⟨"S", []⟩)
+    birthIntoAge f s ∧ s.strata.Nodup ∧ "0" ∈ s.strata
+      ∧ stratifyFlow f s = .ok [{ f with dst := some ⟨"S", [("age", "0")]⟩ }] :=
+  ⟨by decide, by decide, by decide, rfl⟩
+
+/-! ### `C04.flows_after_stratify` -/
+
+/-- After an accepted stratification of a model satisfying the invariant: the compartments are the
+in-place stratified ones, the flows are the copies of the old flows, in order, followed by the
+ageing flows (age stratifications only). -/
+theorem flows_after_stratify {m m' : Model α} {s : Strat α} (h : Inv m) (hs : s.strata.Nodup)
+    (hok : stratifyWith m s = .ok m') :
+    m'.comps = stratifyComps m.comps s
+    ∧ m'.flows = m.flows.flatMap (fun f => Spec.copies f s) ++ (if s.kind = .age then ageingFlows m.comps s else [])
+    ∧ (∀ f ∈ m.flows, stratifyFlow f s = .ok (Spec.copies f s)) := by
+  rcases stratifyWith_ok (shape_lite h) hok with ⟨ageing, R⟩
+  refine ⟨R.comps, ?_, R.each⟩
+  rw [R.flows]
+  by_cases hk : s.kind = .age
+  · rw [if_pos hk, ageingOf_eq h hs R hk]
+  · rw [if_neg hk, R.notAge hk]
+
+/-- the same for every reachable model -/
+theorem flows_after_stratify_reachable [LT α] [DecidableLT α] {m m' : Model α} {s : Strat α} (h : Reachable m)
+    (hs : s.strata.Nodup) (hok : stratifyWith m s = .ok m') :
+    m'.comps = stratifyComps m.comps s
+    ∧ m'.flows = m.flows.flatMap (fun f => Spec.copies f s) ++ (if s.kind = .age then ageingFlows m.comps s else []) :=
+  ⟨(flows_after_stratify (reachable_inv h) hs hok).1, (flows_after_stratify (reachable_inv h) hs hok).2.1⟩
+
+/-- for a stratification that is not an age stratification nothing but the flow shapes is needed
+(no ageing flows; strata may even repeat) -/
+theorem flows_after_stratify_not_age {m m' : Model α} {s : Strat α}
+    (hshape : ∀ f ∈ m.flows, (isEntry f.kind = true → f.src = none) ∧ (isExit f.kind = true → f.dst = none))
+    (hk : s.kind ≠ .age) (hok : stratifyWith m s = .ok m') :
+    m'.comps = stratifyComps m.comps s ∧ m'.flows = m.flows.flatMap (fun f => Spec.copies f s) := by
+  rcases stratifyWith_ok hshape hok with ⟨ageing, R⟩
+  refine ⟨R.comps, ?_⟩
+  rw [R.flows, R.notAge hk, List.append_nil]
+
+/-- the ageing flows: for each pair of consecutive sorted ages `a, b` (outer loop) and each
+pre-stratification compartment `c` (inner loop) exactly one transition flow from `c`'s copy for `a` to
+`c`'s copy for `b` with the constant rate `1 / (b - a)`, no adjustments -/
+theorem ageing_spec (prev : List Comp) (s : Strat α) :
+    (ageingFlows prev s : List (Flow α)).length = (agePairs s).length * prev.length
+    ∧ (agePairs s).length = (s.strata.filterMap (fun x => x.toInt?)).length - 1
+    ∧ ∀ g : Flow α, g ∈ ageingFlows prev s ↔ ∃ ab ∈ agePairs s, ∃ c ∈ prev,
+        g = { kind := .transition,
+              name := "ageing_" ++ (c.stratify s.name (toString ab.1)).serialize ++ "_to_" ++ (c.stratify s.name (toString ab.2)).serialize,
+              src := some (c.stratify s.name (toString ab.1)), dst := some (c.stratify s.name (toString ab.2)),
+              param := .const ((1 : α) / (((ab.2 - ab.1).toNat : Nat) : α)), adjs := [] } :=
+  ⟨ageingFlows_length prev s, agePairs_length s, fun _ => mem_ageingFlows⟩
+
+/-- consecutive ages are strictly increasing whenever the age stratification is accepted on a model
+with at least one compartment (a zero-width age group raises) -/
+theorem ageing_pairs_lt {m m' : Model α} {s : Strat α} (h : Inv m) (hk : s.kind = .age) (hne : m.comps ≠ [])
+    (hok : stratifyWith m s = .ok m') : s.comps = m.origNames ∧ ∀ ab ∈ agePairs s, ab.1 < ab.2 := by
+  rcases stratifyWith_ok (shape_lite h) hok with ⟨ageing, R⟩
+  rcases R.age hk with ⟨hfull, _, hall⟩
+  refine ⟨hfull, fun ab hab => ?_⟩
+  rcases List.exists_mem_of_ne_nil _ hne with ⟨c, hc⟩
+  have h1 := (hall ab hab c hc).2
+  have h2 := agePairs_le s ab hab
+  omega
+
+end
+
+/-- in a field the ageing rate `1 / ↑(b - a).toNat` is `1 / (b - a)` -/
+theorem ageing_rate {α : Type} [Field α] (a b : Int) (h : a < b) :
+    (1 : α) / (((b - a).toNat : Nat) : α) = 1 / ((b : α) - (a : α)) := by
+  have e : ((b - a).toNat : Int) = b - a := Int.toNat_of_nonneg (by omega)
+  have : (((b - a).toNat : Nat) : α) = (b : α) - (a : α) :=
+    calc (((b - a).toNat : Nat) : α) = (((b - a).toNat : Int) : α) := (Int.cast_natCast _).symm
+      _ = ((b - a : Int) : α) := by rw [e]
+      _ = (b : α) - (a : α) := Int.cast_sub b a
+  rw [this]
+
+/- Non-vacuity of the age case: `String.toInt?` does not reduce in the kernel, so the accepted age
+stratification is exhibited by evaluation (base model `S`,`I`; ages `0`,`5`): 2+1+2 copies followed by
+2 ageing flows, one per compartment. -/
+open Spec.Ex in
+#eval (match stratifyWith base (strat .age "age" ["0", "5"] ["S", "I"] []) with
+  | .ok m => m.flows.map (fun (f : Flow Int) => (f.name, f.src.map Comp.serialize, f.dst.map Comp.serialize))
+  | .error _ => [])
+
+section
+variable {α : Type} [One α] [Div α] [NatCast α]
+
+open Spec.Ex in
+/-- non-vacuity of `flows_after_stratify` (plain stratification of `S` only, executed on `Int`) -/
+example : ∃ m' : Model Int, stratifyWith base (strat .plain "loc" ["u", "r"] ["S"] []) = .ok m'
+    ∧ m'.comps = [⟨"S", [("loc", "u")]⟩, ⟨"S", [("loc", "r")]⟩, ⟨"I", []⟩] ∧ m'.flows.length = 5 :=
+  ⟨_, rfl, by decide, rfl⟩
+
+/-! ### `C04.copy_adjustments` -/
+
+/-- the adjustment list of the copy for stratum `st` is the parent's list followed by `extraAdj` -/
+theorem copy_adjustments (f : Flow α) (s : Strat α) (st : String) :
+    (copyOf f s st).adjs = f.adjs ++ extraAdj f s st := rfl
+
+/-- the table, row "birth flow under an age stratification": nothing is appended -/
+theorem adj_birth_age {f : Flow α} {s : Strat α} (hb : birthIntoAge f s) (st : String) : extraAdj f s st = [] :=
+  extraAdj_birth_age hb st
+
+/-- the table, rows "user adjustment": the adjustment of the winning declaration for this stratum if
+it is `Multiply`/`Overwrite`, nothing if it is `None`; then the absolute share -/
+theorem adj_user {f : Flow α} {s : Strat α} (hb : ¬ birthIntoAge f s) {a : List (String × Option (Adj α))}
+    (hw : winning s f = some a) (st : String) :
+    extraAdj f s st = (match alookup a st with | some (some adj) => [adj] | _ => []) ++ absShare f s :=
+  extraAdj_user hb hw st
+
+/-- the table, rows "no user adjustment": `Multiply(1/n)` for an entry flow into a stratified
+destination, `Multiply(1/n)` for a transition-type flow whose destination alone is stratified unless
+the stratification is a strain stratification, nothing otherwise; then the absolute share -/
+theorem adj_auto {f : Flow α} {s : Strat α} (hb : ¬ birthIntoAge f s) (hw : winning s f = none) (st : String) :
+    extraAdj f s st =
+      (if isEntry f.kind = true then [share s.strata.length]
+       else if isExit f.kind = false ∧ endIn s f.dst ∧ ¬ endIn s f.src ∧ s.kind ≠ .strain then [share s.strata.length]
+       else []) ++ absShare f s := by
+  rw [extraAdj_auto hb hw]
+  congr 1
+  unfold autoAdj
+  by_cases he : isEntry f.kind = true
+  · rw [if_pos he, if_pos he]
+  · rw [if_neg he, if_neg he]
+    have he' : isEntry f.kind = false := by simpa using he
+    have : conservation f s ↔ (isExit f.kind = false ∧ endIn s f.dst ∧ ¬ endIn s f.src ∧ s.kind ≠ .strain) := by
+      unfold conservation
+      constructor
+      · rintro ⟨_, h2, h3, h4, h5, _⟩; exact ⟨h2, h3, h4, h5⟩
+      · rintro ⟨h2, h3, h4, h5⟩; exact ⟨he', h2, h3, h4, h5, hw⟩
+    by_cases hc : conservation f s
+    · rw [if_pos hc, if_pos (this.1 hc)]
+    · rw [if_neg hc, if_neg (fun h => hc (this.2 h))]
+
+/-- the table, last column: an absolute flow gets the equal share `Multiply(1/k)` (`k` = number of
+copies) exactly when there is more than one copy and the conservation split was not applied, so its
+weight is shared once; non-absolute flows never get it -/
+theorem adj_absolute (f : Flow α) (s : Strat α) :
+    (absoluteShareKinds.contains f.kind = false → absShare f s = [])
+    ∧ (conservation f s → absShare f s = [] ∧ autoAdj f s = [share s.strata.length])
+    ∧ (absoluteShareKinds.contains f.kind = true → 1 < s.strata.length → ¬ conservation f s →
+        absShare f s = [share s.strata.length]) :=
+  ⟨absShare_of_not_abs, fun h => ⟨absShare_of_conservation h, autoAdj_conservation h⟩, absShare_of_abs⟩
+
+end
+
+section
+variable {α : Type}
+
+/-- `C04.copy_weight`: the realised weight (`map_flow_keys`) of a copy is the parent's realised weight
+with the appended adjustments applied left to right: `Multiply` scales, `Overwrite` replaces
+(discarding everything before it, automatic splits included), nothing appended keeps -/
+theorem copy_weight [One α] [Div α] [NatCast α] (f : Flow α) (s : Strat α) (st : String) :
+    Run.realised (copyOf f s st) = applyAdjs (Run.realised f) (extraAdj f s st) :=
+  realised_copyOf f s st
+
+theorem applyAdjs_spec (e : Expr α) :
+    applyAdjs e [] = e
+    ∧ (∀ x l, applyAdjs e (.mul x :: l) = applyAdjs (.mul e x) l)
+    ∧ (∀ x l, applyAdjs e (.ovr x :: l) = applyAdjs x l) :=
+  ⟨rfl, fun _ _ => rfl, fun _ _ => rfl⟩
+
+/-- readable instances for a non-absolute flow that is not a birth-into-age flow -/
+theorem copy_weight_cases [One α] [Div α] [NatCast α] {f : Flow α} {s : Strat α} (hb : ¬ birthIntoAge f s)
+    (habs : absoluteShareKinds.contains f.kind = false) (st : String) :
+    (∀ a x, winning s f = some a → alookup a st = some (some (.mul x)) →
+        Run.realised (copyOf f s st) = .mul (Run.realised f) x)
+    ∧ (∀ a x, winning s f = some a → alookup a st = some (some (.ovr x)) → Run.realised (copyOf f s st) = x)
+    ∧ (∀ a, winning s f = some a → alookup a st = some none → Run.realised (copyOf f s st) = Run.realised f)
+    ∧ (winning s f = none → isEntry f.kind = true →
+        Run.realised (copyOf f s st) = .mul (Run.realised f) (.const ((1 : α) / (s.strata.length : α))))
+    ∧ (conservation f s →
+        Run.realised (copyOf f s st) = .mul (Run.realised f) (.const ((1 : α) / (s.strata.length : α))))
+    ∧ (winning s f = none → isEntry f.kind = false → ¬ conservation f s →
+        Run.realised (copyOf f s st) = Run.realised f) := by
+  have h0 := absShare_of_not_abs (s := s) habs
+  refine ⟨fun a x hw hl => ?_, fun a x hw hl => ?_, fun a hw hl => ?_, fun hw he => ?_, fun hc => ?_, fun hw he hc => ?_⟩
+  · rw [copy_weight, extraAdj_user hb hw, h0, userAdj_some hl]; rfl
+  · rw [copy_weight, extraAdj_user hb hw, h0, userAdj_some hl]; rfl
+  · rw [copy_weight, extraAdj_user hb hw, h0, userAdj_none (Or.inl hl)]; rfl
+  · rw [copy_weight, extraAdj_auto hb hw, h0, autoAdj_entry he]; rfl
+  · rw [copy_weight, extraAdj_auto hb hc.2.2.2.2.2, h0, autoAdj_conservation hc]; rfl
+  · rw [copy_weight, extraAdj_auto hb hw, h0, autoAdj_none he hc]; rfl
+
+/-- an absolute flow's weight is shared once: with the conservation split the copy is the parent
+times `1/n`; without it (and `n > 1`, no user adjustment) the copy is the parent times `1/n` as well,
+through the absolute share -/
+theorem absolute_shared_once [One α] [Div α] [NatCast α] {f : Flow α} {s : Strat α}
+    (habs : absoluteShareKinds.contains f.kind = true) (hw : winning s f = none) (hn : 1 < s.strata.length) (st : String) :
+    Run.realised (copyOf f s st) = .mul (Run.realised f) (.const ((1 : α) / (s.strata.length : α))) := by
+  have he : isEntry f.kind = false := by
+    cases hk : isEntry f.kind with
+    | false => rfl
+    | true => rw [isEntry_not_abs _ hk] at habs; cases habs
+  have hb : ¬ birthIntoAge f s := fun h => by
+    have := not_isEntry_not_birth _ he; rw [h.1] at this; cases this
+  by_cases hc : conservation f s
+  · rw [copy_weight, extraAdj_auto hb hw, absShare_of_conservation hc, autoAdj_conservation hc]; rfl
+  · rw [copy_weight, extraAdj_auto hb hw, absShare_of_abs habs hn hc, autoAdj_none he hc]; rfl
+
+open Spec.Ex in
+/-- non-vacuity of `absolute_shared_once` (executed on `Int`): destination-only stratification
+(conservation split, no extra share) and both-ends stratification (extra share, no split) both give
+exactly one `Multiply(1/n)` -/
+example :
+    let f := flow .absolute "abs" (some ⟨"S", []⟩) (some ⟨"I", []⟩)
+    (stratifyFlow f (strat .plain "loc" ["u", "r"] ["I"] [])).toOption.map (fun fs => fs.map (fun g => g.adjs.length)) = some [1, 1]
+    ∧ (stratifyFlow f (strat .plain "loc" ["u", "r"] ["S", "I"] [])).toOption.map (fun fs => fs.map (fun g => g.adjs.length)) = some [1, 1]
+    ∧ conservation f (strat .plain "loc" ["u", "r"] ["I"] [])
+    ∧ ¬ conservation f (strat .plain "loc" ["u", "r"] ["S", "I"] []) :=
+  ⟨rfl, rfl, by decide, by decide⟩
+
+/-! ### `C04.add_after` -/
+
+/-- `_add_entry_flow` on any (possibly stratified) model: one flow per selected compartment, in
+model order, appended after the existing flows -/
+theorem add_after_entry {m m' : Model α} {kind : FlowKind} {name : String} {param : Expr α} {dest : String}
+    {ds : Strata} {ex : Option Nat} {adjs : List (Adj α)}
+    (h : addEntry m kind name param dest ds ex adjs = .ok m') :
+    m'.flows = m.flows ++ (select dest ds m.comps).map
+        (fun d => { kind := kind, name := name, src := none, dst := some d, param := param, adjs := adjs })
+    ∧ m'.comps = m.comps := by
+  rw [(addEntry_ok h).1]; exact ⟨rfl, rfl⟩
+
+theorem add_after_exit {m m' : Model α} {kind : FlowKind} {name : String} {param : Expr α} {source : String}
+    {ss : Strata} {ex : Option Nat}
+    (h : addExit m kind name param source ss ex = .ok m') :
+    m'.flows = m.flows ++ (select source ss m.comps).map
+        (fun c => { kind := kind, name := name, src := some c, dst := none, param := param, adjs := [] })
+    ∧ m'.comps = m.comps := by
+  rw [(addExit_ok h).1]; exact ⟨rfl, rfl⟩
+
+/-- `_add_transition_flow`: one flow per zipped (source, destination) pair of the two selections, in
+model order; the two selections have the same length -/
+theorem add_after_transition {m m' : Model α} (hk : ∀ c ∈ m.comps, KeysNodup c.strata) {kind : FlowKind}
+    {name : String} {param : Expr α} {source dest : String} {ss ds : Strata} {ex : Option Nat}
+    (h : addTransitionCore m kind name param source dest ss ds ex = .ok m') :
+    m'.flows = m.flows ++ ((select source ss m.comps).zip (select dest ds m.comps)).map
+        (fun sd => { kind := kind, name := name, src := some sd.1, dst := some sd.2, param := param, adjs := [] })
+    ∧ (select dest ds m.comps).length = (select source ss m.comps).length
+    ∧ m'.comps = m.comps := by
+  have := addTransitionCore_ok hk h
+  rw [this.1]; exact ⟨rfl, this.2.1, rfl⟩
+
+/-- and the entry call succeeds exactly as expected -/
+theorem add_after_entry_ok {m : Model α} {kind : FlowKind} {name : String} {param : Expr α} {dest : String}
+    {ds : Strata} {ex : Option Nat} {adjs : List (Adj α)}
+    (hf : m.finalized = false) (hex : ∀ e, ex = some e → e = (select dest ds m.comps).length) :
+    ∃ m', addEntry m kind name param dest ds ex adjs = .ok m' :=
+  ⟨_, addEntry_eq_ok hf hex⟩
+
+open Spec.Ex in
+/-- non-vacuity: a death flow added to the stratified example model gets one flow per `S` compartment -/
+example : ∃ m' : Model Int, addExit model .death "d2" (.const 1) "S" [] (some 2) = .ok m'
+    ∧ m'.flows.length = model.flows.length + 2 := ⟨_, rfl, rfl⟩
+
+open Spec.Ex in
+example : ∃ m' : Model Int, addTransitionCore model .transition "rec" (.const 1) "I" "S" [] [] none = .ok m'
+    ∧ (∀ c ∈ model.comps, KeysNodup c.strata) ∧ m'.flows.length = model.flows.length + 2 := ⟨_, rfl, by decide, rfl⟩
+
+end
+end Summer.C04
+
+#print axioms Summer.C04.last_match_wins
+#print axioms Summer.C04.last_match_wins_ok
+#print axioms Summer.C04.last_match_wins_raises
+#print axioms Summer.C04.winning_some_iff
+#print axioms Summer.C04.winning_none_iff
+#print axioms Summer.C04.copies
+#print axioms Summer.C04.copies_ok
+#print axioms Summer.C04.copies_untouched
+#print axioms Summer.C04.copies_touched
+#print axioms Summer.C04.copies_birth_age
+#print axioms Summer.C04.stratEnd_spec
+#print axioms Summer.C04.copies_count
+#print axioms Summer.C04.copies_fields
+#print axioms Summer.C04.copies_nodup
+#print axioms Summer.C04.flows_after_stratify
+#print axioms Summer.C04.flows_after_stratify_reachable
+#print axioms Summer.C04.flows_after_stratify_not_age
+#print axioms Summer.C04.ageing_spec
+#print axioms Summer.C04.ageing_pairs_lt
+#print axioms Summer.C04.ageing_rate
+#print axioms Summer.C04.copy_adjustments
+#print axioms Summer.C04.adj_birth_age
+#print axioms Summer.C04.adj_user
+#print axioms Summer.C04.adj_auto
+#print axioms Summer.C04.adj_absolute
+#print axioms Summer.C04.copy_weight
+#print axioms Summer.C04.applyAdjs_spec
+#print axioms Summer.C04.copy_weight_cases
+#print axioms Summer.C04.absolute_shared_once
+#print axioms Summer.C04.add_after_entry
+#print axioms Summer.C04.add_after_exit
+#print axioms Summer.C04.add_after_transition
+#print axioms Summer.C04.add_after_entry_ok
